@@ -428,7 +428,10 @@ func ParseRange(s string) (start, end int64, ok bool) {
 	}
 	p0, err0 := strconv.ParseInt(p0s, 10, 64)
 	p1, err1 := strconv.ParseInt(p1s, 10, 64)
-	if p1 > 0 {
+	if p1 > 0 || p0 > 0 {
+		// Note: RangeString renders the empty range at N > 0 as "N-(N-1)".
+		// Only "0-0" remains ambiguous between the empty range
+		// and the first byte; it's returned as the empty range.
 		p1++
 	}
 	return p0, p1, err0 == nil && err1 == nil
